@@ -286,6 +286,11 @@ def run_shard(ctx):
     for k in range(ctx.n(600, 9000)):
         ctx.count("stream_family_requests")
         c04.check_request(ctx, (base + k) * 11 + 6, k + 1, protocol=True, merge=False)
+    # ... and so do the defer template families (list-nested, overlapping, split, shared-fragment): wrong parent links
+    # between fragments show as protocol violations only under particular completion orders
+    for k in range(ctx.n(500, 7500)):
+        ctx.count("defer_family_requests")
+        c04.check_request(ctx, (base + k) * 11 + (7, 7, 9, 10, 5)[k % 5], k + 1, protocol=True, merge=False)
     part_b(ctx)
 
 
